@@ -571,6 +571,44 @@ func RunFileScript(lines []string, w *bufio.Writer, verbose bool) error {
 		}
 		emit()
 		if f[1] == "getall" {
+			// first, readers of the file at the same moment (the engine's Gets of one data file run concurrently): four
+			// goroutines read every written position, each must get the bytes written there
+			if !r.damaged && r.df != nil && len(r.written) > 1 {
+				var wg sync.WaitGroup
+				bad := make([]string, 4)
+				for g := 0; g < 4; g++ {
+					wg.Add(1)
+					go func(g int) {
+						defer wg.Done()
+						defer func() {
+							if e := recover(); e != nil {
+								bad[g] = fmt.Sprintf("panic: %v", e)
+							}
+						}()
+						for round := 0; round < 3; round++ {
+							for i := range r.written {
+								w := r.written[(i+g*len(r.written)/4)%len(r.written)]
+								v, err := r.df.ReadRecordValue(&datafile.DataPos{Fid: r.fid, BlockID: w.bid + r.base, Offset: w.off})
+								if err != nil {
+									bad[g] = fmt.Sprintf("read at (%d,%d) failed: %v", w.bid, w.off, err)
+									return
+								}
+								if !bytes.Equal(v, w.val) {
+									bad[g] = fmt.Sprintf("read at (%d,%d) returned %d bytes that differ from the %d written", w.bid, w.off, len(v), len(w.val))
+									return
+								}
+							}
+						}
+					}(g)
+				}
+				wg.Wait()
+				for _, b := range bad {
+					if b != "" {
+						r.fail("four concurrent readers of the file: %s", b)
+						break
+					}
+				}
+			}
 			for _, p := range r.poss {
 				g := fmt.Sprintf("F get %d %d", p[0], p[1])
 				fmt.Fprintf(w, "%s => %s\n", g, r.Exec(strings.Fields(g)))
